@@ -27,6 +27,7 @@ import (
 type DHop struct {
 	L    string `json:"L"`
 	From string `json:"from"`
+	M    string `json:"m"` // ok | badrcv | overdraw
 }
 
 type DAction struct {
@@ -38,6 +39,7 @@ type DAction struct {
 	Hop   int      `json:"hop,omitempty"`
 	L     string   `json:"L,omitempty"`
 	From  string   `json:"from,omitempty"`
+	M     string   `json:"m,omitempty"`
 }
 
 type DMove struct {
@@ -271,8 +273,15 @@ func (w *DenomWorld) Exec(a DAction) (line DLine) {
 		w.watch(src, e.ChannelID, cands)
 		accts := map[string]sdk.AccAddress{"user": w.user(src), "escrow": w.escrowAddr(l, src)}
 		b0, f0 := w.snap(src, accts), w.flows(src)
-		msg := transfertypes.NewMsgTransfer(e.ChannelConfig.PortID, e.ChannelID, sdk.NewCoin(w.coin, sdkmath.NewInt(denomAmt)),
-			w.user(src).String(), w.user(dst).String(), clienttypes.ZeroHeight(), farFuture(w.finalTime()), "")
+		amt, receiver := int64(denomAmt), w.user(dst).String()
+		switch a.M {
+		case "overdraw":
+			amt = 1000000
+		case "badrcv":
+			receiver = "not-a-valid-address"
+		}
+		msg := transfertypes.NewMsgTransfer(e.ChannelConfig.PortID, e.ChannelID, sdk.NewCoin(w.coin, sdkmath.NewInt(amt)),
+			w.user(src).String(), receiver, clienttypes.ZeroHeight(), farFuture(w.finalTime()), "")
 		r := w.txAt(src, 1, w.finalTime(), msg)
 		line.Res, line.Err, line.Amt, line.Pkt = r.Res, r.Err, denomAmt, path
 		line.Moved, line.Charged = w.diffBal(b0, w.snap(src, accts)), w.diffFlows(f0, w.flows(src))
